@@ -56,6 +56,9 @@ Section ListFacts.
       + intros; apply Hoth; auto. right; auto.
   Qed.
 
+  Lemma flat_map_all_nil (f : A -> list B) (l : list A) : (forall x, f x = []) -> flat_map f l = [].
+  Proof. intros H. induction l; simpl; auto. rewrite H, IHl; auto. Qed.
+
   Lemma flat_map_filter_nonnil (f : A -> list B) (p : A -> bool) (l : list A) :
     (forall x, In x l -> p x = false -> f x = []) ->
     flat_map f (filter p l) = flat_map f l.
@@ -136,8 +139,9 @@ Section Amap.
     - tauto.
     - destruct (cell_eqb k c) eqn:E.
       + apply cell_eqb_spec in E. split; [discriminate|]. intros H; exfalso; apply H; auto.
-      + rewrite IH. split; intros H; [|tauto]. intros [->|H']; [|tauto].
-        rewrite cell_eqb_refl in E; discriminate.
+      + rewrite IH. split; intros H.
+        * intros [->|H']; [|contradiction]. rewrite cell_eqb_refl in E; discriminate.
+        * intros H'; apply H; right; exact H'.
   Qed.
 
   Lemma aget_some_in (m : amap) c : In c (map fst m) -> exists l, aget m c = Some l.
@@ -164,7 +168,7 @@ Section Amap.
   Proof.
     destruct (in_dec cell_eq_dec c (map fst m)) as [H|H].
     - rewrite keys_aset_in; auto.
-    - rewrite keys_aset_new; auto. rewrite in_app_iff; simpl. tauto.
+    - rewrite keys_aset_new; auto. rewrite in_app_iff; simpl. intuition auto.
   Qed.
 
   Lemma keys_aset_nodup (m : amap) c v : NoDup (map fst m) -> NoDup (map fst (aset m c v)).
@@ -214,15 +218,821 @@ Section Amap.
     Permutation (flat_map snd m) (flat_map (fun c => get_or_nil (aget m c)) cells).
   Proof.
     intros NDc. induction m as [|[k w] r IH]; intros ND Hsub.
-    - simpl. assert (flat_map (fun c : cell => @get_or_nil id (aget [] c)) cells = []) as ->; auto.
-      clear. induction cells; simpl; auto.
-    - inversion ND as [|? ? Hnot ND']; subst. simpl flat_map at 1.
+    - simpl. rewrite flat_map_all_nil; auto.
+    - inversion ND as [|? ? Hnot ND']; subst.
+      change (flat_map snd ((k, w) :: r)) with (w ++ flat_map snd r).
+      rewrite IH; auto; [|intros; apply Hsub; right; auto].
       symmetry.
-      apply (flat_map_pointwise (fun c => get_or_nil (aget r c))); auto.
+      apply (flat_map_pointwise (fun c => get_or_nil (aget r c))) with (c := k); auto.
       + apply Hsub; left; auto.
       + intros c' _ Hne. simpl. rewrite cell_eqb_neq; auto.
       + simpl. rewrite cell_eqb_refl. simpl.
         assert (aget r k = None) as -> by (apply aget_none_iff; auto). simpl. rewrite app_nil_r. reflexivity.
-      + symmetry. rewrite IH; auto. intros; apply Hsub; right; auto.
   Qed.
 End Amap.
+
+(** ** The occupancy invariant (C11) *)
+Section Inv.
+  Variables cell id : Type.
+  Variable cell_eqb : cell -> cell -> bool.
+  Variable id_eqb : id -> id -> bool.
+  Hypothesis cell_eqb_spec : forall a b, cell_eqb a b = true <-> a = b.
+  Hypothesis id_eqb_spec : forall a b, id_eqb a b = true <-> a = b.
+
+  Notation state := (state cell id).
+  Notation aget := (@aget cell id cell_eqb).
+  Notation aset := (@aset cell id cell_eqb).
+  Notation adel := (@adel cell id cell_eqb).
+  Notation occ_of := (@occ_of cell id cell_eqb).
+  Notation sur_of := (@sur_of cell id cell_eqb).
+  Notation insert_unit := (@insert_unit cell id cell_eqb).
+  Notation update := (@update cell id cell_eqb id_eqb).
+  Notation initialize := (@initialize cell id cell_eqb).
+  Notation remove_first := (@remove_first id id_eqb).
+
+  Variable cells : list cell.
+  Hypothesis cells_nodup : NoDup cells.
+
+  (** everything recorded, cell by cell *)
+  Definition recorded (s : state) : list id := flat_map (fun c => occ_of s c ++ sur_of s c) cells.
+  Definition is_active (s : state) (u : id) : bool := opt_id_eqb id_eqb (active_id s) u.
+  (** the units that must be recorded: all relevant ones except the active one *)
+  Definition others (s : state) (units : list id) : list id := filter (fun u => negb (is_active s u)) units.
+
+  (** structural part: keys, surplus dictionary, occupant limit *)
+  Record st_wf (s : state) : Prop := {
+    wf_keys : map fst (occupants s) = cells;
+    wf_sur_nodup : NoDup (map fst (surplus s));
+    wf_sur_valid : forall c, In c (map fst (surplus s)) -> In c cells;
+    wf_sur_nonempty : forall c, aget (surplus s) c <> Some [];
+    wf_limit : forall c k, limit s = Some k -> length (occ_of s c) <= k
+  }.
+
+  (** [occ_inv s units cellof]: [units] are the relevant units on the cell level (duplicate-free),
+      [cellof u] is the cell that contains the current position of [u]. *)
+  Record occ_inv (s : state) (units : list id) (cellof : id -> cell) : Prop := {
+    inv_wf : st_wf s;
+    (* every relevant non-active unit is recorded exactly once, the active one is not recorded *)
+    inv_recorded : Permutation (recorded s) (others s units);
+    (* ... in the occupant or surplus list of the cell that contains its position *)
+    inv_where : forall c u, In c cells -> In u (occ_of s c ++ sur_of s c) -> cellof u = c;
+    (* the active unit is stored with the cell that contains its position *)
+    inv_active : match active_id s, active_cell s with
+                 | Some a, Some c => In a units /\ c = cellof a
+                 | None, None => True
+                 | _, _ => False
+                 end
+  }.
+
+  Lemma id_eqb_refl u : id_eqb u u = true.
+  Proof. apply id_eqb_spec; auto. Qed.
+  Lemma id_eqb_neq a b : a <> b -> id_eqb a b = false.
+  Proof. intros H. destruct (id_eqb a b) eqn:E; auto. apply id_eqb_spec in E; contradiction. Qed.
+  Lemma id_eq_dec (a b : id) : {a = b} + {a <> b}.
+  Proof.
+    destruct (id_eqb a b) eqn:E.
+    - left; apply id_eqb_spec; auto.
+    - right; intros ->. rewrite id_eqb_refl in E; discriminate.
+  Qed.
+
+  (** *** list.remove *)
+  Lemma remove_first_some x l l' : remove_first x l = Some l' ->
+    Permutation l (x :: l') /\ length l = S (length l') /\ (forall u, In u l' -> In u l).
+  Proof.
+    revert l'. induction l as [|y r IH]; simpl; intros l' H; [discriminate|].
+    destruct (id_eqb y x) eqn:E.
+    - apply id_eqb_spec in E; subst. inversion H; subst. repeat split; auto with datatypes.
+    - destruct (remove_first x r) eqn:R; [|discriminate]. inversion H; subst.
+      destruct (IH _ eq_refl) as (P & L & I). repeat split.
+      + rewrite perm_swap. constructor; auto.
+      + simpl. lia.
+      + intros u [->|Hu]; [left; auto|right; auto].
+  Qed.
+
+  Lemma remove_first_in x l : In x l -> exists l', remove_first x l = Some l'.
+  Proof.
+    induction l as [|y r IH]; simpl; intros H; [tauto|].
+    destruct (id_eqb y x) eqn:E; eauto.
+    destruct H as [->|H]; [rewrite id_eqb_refl in E; discriminate|].
+    destruct (IH H) as (l' & ->). eauto.
+  Qed.
+
+  Lemma remove_first_none x l : remove_first x l = None -> ~ In x l.
+  Proof.
+    intros H Hin. destruct (remove_first_in _ _ Hin) as (l' & E). congruence.
+  Qed.
+
+  (** *** views *)
+  Lemma occ_of_set_sur s m c : occ_of (set_sur s m) c = occ_of s c.
+  Proof. reflexivity. Qed.
+  Lemma sur_of_set_occ s m c : sur_of (set_occ s m) c = sur_of s c.
+  Proof. reflexivity. Qed.
+
+  Lemma in_recorded s u : In u (recorded s) <-> exists c, In c cells /\ In u (occ_of s c ++ sur_of s c).
+  Proof. unfold recorded. rewrite in_flat_map. tauto. Qed.
+
+  Lemma refill_condition_false (s : state) c : (forall c, aget (surplus s) c <> Some []) -> refill_condition cell_eqb s c = false.
+  Proof.
+    intros H. unfold refill_condition. specialize (H c).
+    destruct (aget (surplus s) c) as [[|]|]; simpl; auto. congruence.
+  Qed.
+
+  (** if the branch were ever taken it would raise: it pops from the empty list it has just tested for *)
+  Lemma refill_would_raise (s : state) c : refill_condition cell_eqb s c = true -> refill cell_eqb s c = Err IndexError.
+  Proof.
+    unfold refill_condition, refill. destruct (aget (surplus s) c) as [[|]|]; simpl; auto; discriminate.
+  Qed.
+
+  (** *** insert_unit *)
+  Lemma insert_unit_ok s c u :
+    st_wf s -> In c cells ->
+    exists s', insert_unit s c u = Ok s' /\ st_wf s'
+      /\ active_cell s' = active_cell s /\ active_id s' = active_id s
+      /\ (forall c', c' <> c -> occ_of s' c' = occ_of s c' /\ sur_of s' c' = sur_of s c')
+      /\ ((occ_of s' c = occ_of s c ++ [u] /\ sur_of s' c = sur_of s c)
+          \/ (occ_of s' c = occ_of s c /\ sur_of s' c = sur_of s c ++ [u])).
+  Proof.
+    intros W Hc. destruct W as [K ND V NE L].
+    unfold Occupancy.insert_unit.
+    assert (Hk : In c (map fst (occupants s))) by (rewrite K; auto).
+    destruct (aget_some_in _ _ _ cell_eqb_spec _ _ Hk) as (oc & Eoc). rewrite Eoc.
+    destruct (has_room (limit s) oc) eqn:R.
+    - eexists; split; [reflexivity|]. split; [|split; [reflexivity|split; [reflexivity|split]]].
+      + constructor; simpl; auto.
+        * rewrite keys_aset_in; auto.
+        * intros c' k Hl. unfold Occupancy.occ_of; simpl.
+          destruct (cell_eq_dec _ _ cell_eqb_spec c' c) as [->|Hne].
+          -- rewrite aget_aset_eq by auto. simpl. rewrite app_length; simpl.
+             unfold has_room in R. rewrite Hl in R. apply Nat.ltb_lt in R. lia.
+          -- rewrite aget_aset_neq by auto. apply (L c' k Hl).
+      + intros c' Hne. unfold Occupancy.occ_of, Occupancy.sur_of; simpl. rewrite aget_aset_neq by auto. auto.
+      + left. unfold Occupancy.occ_of, Occupancy.sur_of; simpl. rewrite aget_aset_eq by auto. rewrite Eoc. auto.
+    - eexists; split; [reflexivity|]. split; [|split; [reflexivity|split; [reflexivity|split]]].
+      + constructor; simpl; auto.
+        * apply keys_aset_nodup; auto.
+        * intros c' H'. apply keys_aset_incl in H'; auto. destruct H' as [->|]; auto.
+        * intros c'. destruct (cell_eq_dec _ _ cell_eqb_spec c' c) as [->|Hne].
+          -- rewrite aget_aset_eq by auto. intros H'. inversion H' as [H'']. destruct (get_or_nil (aget (surplus s) c)); discriminate.
+          -- rewrite aget_aset_neq by auto. apply NE.
+      + intros c' Hne. unfold Occupancy.occ_of, Occupancy.sur_of; simpl. rewrite aget_aset_neq by auto. auto.
+      + right. unfold Occupancy.occ_of, Occupancy.sur_of; simpl. rewrite aget_aset_eq by auto. auto.
+  Qed.
+
+  Lemma recorded_pointwise s s' c xs :
+    In c cells ->
+    (forall c', c' <> c -> occ_of s' c' = occ_of s c' /\ sur_of s' c' = sur_of s c') ->
+    Permutation (occ_of s' c ++ sur_of s' c) (xs ++ occ_of s c ++ sur_of s c) ->
+    Permutation (recorded s') (xs ++ recorded s).
+  Proof.
+    intros Hc Hoth Hp. unfold recorded.
+    apply flat_map_pointwise with (c := c); auto.
+    intros c' _ Hne. destruct (Hoth c' Hne) as [-> ->]. auto.
+  Qed.
+
+  Lemma insert_unit_recorded s s' c u :
+    st_wf s -> In c cells -> insert_unit s c u = Ok s' -> Permutation (recorded s') (u :: recorded s).
+  Proof.
+    intros W Hc E. destruct (insert_unit_ok s c u W Hc) as (s1 & E1 & _ & _ & _ & Hoth & Hat).
+    rewrite E in E1; inversion E1; subst s1.
+    change (u :: recorded s) with ([u] ++ recorded s).
+    apply recorded_pointwise with (c := c); auto.
+    destruct Hat as [[-> ->]|[-> ->]].
+    - rewrite <- app_assoc. simpl. symmetry. apply Permutation_middle.
+    - rewrite app_assoc. simpl. symmetry. apply Permutation_cons_append.
+  Qed.
+
+  (** *** taking the new active unit out of its cell (the try/except part of update and the final del) *)
+  Definition take_out (s2 : state) (c : cell) (nid : id) : res state :=
+    bind (match aget (occupants s2) c with
+          | None => Err KeyError
+          | Some oc =>
+              match remove_first nid oc with
+              | Some oc' =>
+                  let s3 := set_occ s2 (aset (occupants s2) c oc') in
+                  if refill_condition cell_eqb s3 c then refill cell_eqb s3 c else Ok s3
+              | None =>
+                  match aget (surplus s2) c with
+                  | None => Err KeyError
+                  | Some sl =>
+                      match remove_first nid sl with
+                      | None => Err ValueError
+                      | Some sl' => Ok (set_sur s2 (aset (surplus s2) c sl'))
+                      end
+                  end
+              end
+          end) (fun s4 =>
+      if negb (get_truthy (aget (surplus s4) c)) then Ok (set_sur s4 (adel (surplus s4) c)) else Ok s4).
+
+  Definition reinsert (s : state) : res state :=
+    match active_id s with
+    | Some a => match active_cell s with Some ac => insert_unit s ac a | None => Err KeyError end
+    | None => Ok s
+    end.
+
+  Lemma update_unfold s nid rel c :
+    update s nid rel c =
+    if opt_id_eqb id_eqb (active_id s) nid then Ok (set_active s (Some c) (active_id s))
+    else bind (reinsert s) (fun s1 =>
+           if rel then take_out (set_active s1 (Some c) (Some nid)) c nid
+           else Ok (set_active s1 None None)).
+  Proof. reflexivity. Qed.
+
+  Lemma take_out_ok s2 c nid :
+    st_wf s2 -> In c cells -> In nid (occ_of s2 c ++ sur_of s2 c) ->
+    exists s', take_out s2 c nid = Ok s' /\ st_wf s'
+      /\ active_cell s' = active_cell s2 /\ active_id s' = active_id s2
+      /\ (forall c', c' <> c -> occ_of s' c' = occ_of s2 c' /\ sur_of s' c' = sur_of s2 c')
+      /\ Permutation (occ_of s2 c ++ sur_of s2 c) (nid :: occ_of s' c ++ sur_of s' c).
+  Proof.
+    intros W Hc Hin. destruct W as [K ND V NE L].
+    unfold take_out.
+    assert (Hk : In c (map fst (occupants s2))) by (rewrite K; auto).
+    destruct (aget_some_in _ _ _ cell_eqb_spec _ _ Hk) as (oc & Eoc). rewrite Eoc.
+    assert (Hocc : occ_of s2 c = oc) by (unfold Occupancy.occ_of; rewrite Eoc; auto).
+    destruct (remove_first nid oc) as [oc'|] eqn:R.
+    - (* found among the occupants *)
+      destruct (remove_first_some _ _ _ R) as (P & Len & Sub).
+      rewrite refill_condition_false by (simpl; auto).
+      simpl bind. simpl surplus.
+      assert (negb (get_truthy (aget (surplus s2) c)) = false) as ->.
+      { specialize (NE c). destruct (aget (surplus s2) c) as [[|]|]; simpl; auto. congruence. }
+      eexists; split; [reflexivity|]. split; [|split; [reflexivity|split; [reflexivity|split]]].
+      + constructor; simpl; auto.
+        * rewrite keys_aset_in; auto.
+        * intros c' k Hl. unfold Occupancy.occ_of; simpl.
+          destruct (cell_eq_dec _ _ cell_eqb_spec c' c) as [->|Hne].
+          -- rewrite aget_aset_eq by auto. simpl. specialize (L c k Hl). rewrite Hocc in L. lia.
+          -- rewrite aget_aset_neq by auto. apply (L c' k Hl).
+      + intros c' Hne. unfold Occupancy.occ_of, Occupancy.sur_of; simpl. rewrite aget_aset_neq by auto. auto.
+      + unfold Occupancy.occ_of at 2. unfold Occupancy.sur_of at 2. simpl. rewrite aget_aset_eq by auto. simpl.
+        rewrite Hocc. rewrite P. apply Permutation_refl.
+    - (* ValueError: it must be in the surplus list *)
+      apply remove_first_none in R.
+      rewrite Hocc in Hin. apply in_app_or in Hin. destruct Hin as [Hin|Hin]; [contradiction|].
+      unfold Occupancy.sur_of in Hin.
+      destruct (aget (surplus s2) c) as [sl|] eqn:Esl; [|inversion Hin]. simpl in Hin.
+      destruct (remove_first_in _ _ Hin) as (sl' & R'). rewrite R'.
+      destruct (remove_first_some _ _ _ R') as (P & Len & Sub).
+      simpl bind. rewrite aget_aset_eq by auto.
+      assert (Hks : In c (map fst (surplus s2))).
+      { destruct (in_dec (cell_eq_dec _ _ cell_eqb_spec) c (map fst (surplus s2))); auto.
+        apply (aget_none_iff _ _ _ cell_eqb_spec) in n. congruence. }
+      assert (Hsur2 : sur_of s2 c = sl) by (unfold Occupancy.sur_of; rewrite Esl; auto).
+      destruct sl' as [|x sl'].
+      + (* the list became empty: deleted *)
+        simpl. eexists; split; [reflexivity|]. split; [|split; [reflexivity|split; [reflexivity|split]]].
+        * constructor; simpl; auto.
+          -- apply keys_adel_nodup; auto. apply keys_aset_nodup; auto.
+          -- intros c' H'. apply keys_adel_incl in H'. apply keys_aset_incl in H'; auto. destruct H' as [->|]; auto.
+          -- intros c'. destruct (cell_eq_dec _ _ cell_eqb_spec c' c) as [->|Hne].
+             ++ rewrite aget_adel_eq; auto; [discriminate|]. apply keys_aset_nodup; auto.
+             ++ rewrite aget_adel_neq by auto. rewrite aget_aset_neq by auto. apply NE.
+        * intros c' Hne. unfold Occupancy.occ_of, Occupancy.sur_of; simpl.
+          rewrite aget_adel_neq by auto. rewrite aget_aset_neq by auto. auto.
+        * unfold Occupancy.occ_of at 2. unfold Occupancy.sur_of at 2. simpl.
+          rewrite aget_adel_eq; auto; [|apply keys_aset_nodup; auto]. simpl.
+          fold (occ_of s2 c). rewrite Hocc, Hsur2, app_nil_r.
+          rewrite P. symmetry. apply Permutation_cons_append.
+      + simpl. eexists; split; [reflexivity|]. split; [|split; [reflexivity|split; [reflexivity|split]]].
+        * constructor; simpl; auto.
+          -- apply keys_aset_nodup; auto.
+          -- intros c' H'. apply keys_aset_incl in H'; auto. destruct H' as [->|]; auto.
+          -- intros c'. destruct (cell_eq_dec _ _ cell_eqb_spec c' c) as [->|Hne].
+             ++ rewrite aget_aset_eq by auto. discriminate.
+             ++ rewrite aget_aset_neq by auto. apply NE.
+        * intros c' Hne. unfold Occupancy.occ_of, Occupancy.sur_of; simpl. rewrite aget_aset_neq by auto. auto.
+        * unfold Occupancy.occ_of at 2. unfold Occupancy.sur_of at 2. simpl. rewrite aget_aset_eq by auto. simpl.
+          fold (occ_of s2 c). rewrite Hocc, Hsur2. rewrite P. symmetry. apply Permutation_middle.
+  Qed.
+
+  Lemma st_wf_set_active s c a : st_wf s -> st_wf (set_active s c a).
+  Proof. intros [K ND V NE L]. constructor; auto. Qed.
+
+  Lemma recorded_set_active s c a : recorded (set_active s c a) = recorded s.
+  Proof. reflexivity. Qed.
+
+  Lemma others_none s units : active_id s = None -> others s units = units.
+  Proof.
+    intros E. unfold others, is_active. rewrite E. simpl.
+    induction units; simpl; auto. f_equal; auto.
+  Qed.
+
+  Lemma others_some s a units : active_id s = Some a -> NoDup units -> In a units ->
+    Permutation units (a :: others s units).
+  Proof.
+    intros E ND Hin. unfold others, is_active. rewrite E. simpl.
+    apply filter_remove_perm; auto.
+    - rewrite id_eqb_refl; auto.
+    - intros x Hx. rewrite id_eqb_neq; auto.
+  Qed.
+
+  Section Update.
+    Variables (units : list id) (cellof cellof' : id -> cell).
+    Hypothesis units_nodup : NoDup units.
+    Hypothesis cellof'_valid : forall u, In u units -> In (cellof' u) cells.
+
+    Definition where_ok (s : state) (co : id -> cell) : Prop :=
+      forall c u, In c cells -> In u (occ_of s c ++ sur_of s c) -> co u = c.
+
+    (** first half of update: the previous active unit goes back into its recorded cell *)
+    Lemma reinsert_ok s nid :
+      occ_inv s units cellof ->
+      opt_id_eqb id_eqb (active_id s) nid = false ->
+      (forall u, In u units -> is_active s u = false -> cellof' u = cellof u) ->
+      (forall a, active_id s = Some a -> a <> nid -> cellof' a = cellof a) ->
+      exists s1, reinsert s = Ok s1 /\ st_wf s1 /\ Permutation (recorded s1) units /\ where_ok s1 cellof'.
+    Proof.
+      intros [W Rec Wh Act] Hne Hstay Hold.
+      assert (Wh' : where_ok s cellof').
+      { intros c0 u Hc0 Hu. rewrite <- (Wh c0 u Hc0 Hu).
+        assert (Hr : In u (others s units)).
+        { eapply Permutation_in; [exact Rec|]. apply in_recorded. eauto. }
+        unfold others in Hr. apply filter_In in Hr. destruct Hr as [Hu1 Hu2].
+        apply Hstay; auto. destruct (is_active s u); auto; discriminate. }
+      unfold reinsert. destruct (active_id s) as [a|] eqn:Ea.
+      - destruct (active_cell s) as [ac|] eqn:Eac; [|contradiction].
+        destruct Act as [Ha Hac].
+        simpl in Hne.
+        assert (Han : a <> nid) by (intros ->; rewrite id_eqb_refl in Hne; discriminate).
+        assert (Hca : cellof' a = ac) by (rewrite Hac; apply Hold; auto).
+        assert (Hacc : In ac cells) by (rewrite <- Hca; auto).
+        destruct (insert_unit_ok s ac a W Hacc) as (s1 & E1 & W1 & _ & _ & Hoth & Hat).
+        exists s1. split; auto. split; auto. split.
+        + rewrite (insert_unit_recorded s s1 ac a W Hacc E1). rewrite Rec.
+          symmetry. apply others_some; auto.
+        + intros c0 u Hc0 Hu.
+          destruct (cell_eq_dec _ _ cell_eqb_spec c0 ac) as [->|Hne0].
+          * assert (Hu' : In u (occ_of s ac ++ sur_of s ac) \/ u = a).
+            { destruct Hat as [[E2 E3]|[E2 E3]]; rewrite E2, E3 in Hu;
+                repeat (rewrite in_app_iff in Hu; simpl in Hu); rewrite in_app_iff; intuition auto. }
+            destruct Hu' as [Hu'| ->]; auto.
+          * destruct (Hoth c0 Hne0) as [E2 E3]. rewrite E2, E3 in Hu. auto.
+      - destruct (active_cell s); [contradiction|].
+        exists s. split; auto. split; auto. split; auto.
+        rewrite Rec. rewrite others_none; auto.
+    Qed.
+
+    (** second half: the new active unit is taken out of the cell of its position *)
+    Lemma finish_ok s1 nid rel c :
+      st_wf s1 -> Permutation (recorded s1) units -> where_ok s1 cellof' ->
+      (rel = true <-> In nid units) ->
+      (rel = true -> c = cellof' nid) ->
+      exists s', (if rel then take_out (set_active s1 (Some c) (Some nid)) c nid
+                  else Ok (set_active s1 None None)) = Ok s'
+                 /\ occ_inv s' units cellof'.
+    Proof.
+      intros W1 Rec1 Wh1 Hrel Hc.
+      destruct rel.
+      - assert (Hn : In nid units) by (apply Hrel; auto).
+        specialize (Hc eq_refl).
+        assert (Hcc : In c cells) by (rewrite Hc; auto).
+        assert (Hin : In nid (occ_of s1 c ++ sur_of s1 c)).
+        { assert (Hr : In nid (recorded s1)) by (eapply Permutation_in; [symmetry; exact Rec1|auto]).
+          apply in_recorded in Hr. destruct Hr as (c0 & Hc0 & Hu).
+          rewrite Hc. rewrite (Wh1 c0 nid Hc0 Hu). auto. }
+        set (s2 := set_active s1 (Some c) (Some nid)).
+        assert (W2 : st_wf s2) by (apply st_wf_set_active; auto).
+        destruct (take_out_ok s2 c nid W2 Hcc Hin) as (s' & E & W' & Eac & Eai & Hoth & Hp).
+        exists s'. split; auto.
+        assert (Hrec : Permutation (recorded s2) (nid :: recorded s')).
+        { change (nid :: recorded s') with ([nid] ++ recorded s').
+          apply recorded_pointwise with (c := c); auto.
+          intros c' Hne. destruct (Hoth c' Hne) as [-> ->]; auto. }
+        constructor; auto.
+        + apply Permutation_cons_inv with (a := nid).
+          rewrite <- Hrec. unfold s2. rewrite recorded_set_active. rewrite Rec1.
+          apply others_some; auto.
+        + intros c0 u Hc0 Hu.
+          destruct (cell_eq_dec _ _ cell_eqb_spec c0 c) as [->|Hne0].
+          * apply (Wh1 c u Hcc). change (In u (occ_of s2 c ++ sur_of s2 c)).
+            eapply Permutation_in; [symmetry; exact Hp|]. right; auto.
+          * destruct (Hoth c0 Hne0) as [E2 E3]. rewrite E2, E3 in Hu. apply (Wh1 c0 u Hc0 Hu).
+        + rewrite Eai, Eac. simpl. auto.
+      - eexists; split; [reflexivity|].
+        constructor.
+        + apply st_wf_set_active; auto.
+        + rewrite recorded_set_active, others_none; auto.
+        + exact Wh1.
+        + simpl; auto.
+    Qed.
+
+    (** *** update preserves the invariant.
+        [cellof] / [cellof'] give the cell of every unit's position before / after the step of the run.
+        Hypotheses: the units that are not active did not move; if the active unit changes, the previous
+        active unit is still in its recorded cell (it left it only by a cell-boundary event, after which
+        update was called with the same identifier); [c] is the cell of the new active unit's position. *)
+    Theorem update_inv s nid rel c :
+      occ_inv s units cellof ->
+      (rel = true <-> In nid units) ->
+      (rel = true -> c = cellof' nid) ->
+      (forall u, In u units -> is_active s u = false -> cellof' u = cellof u) ->
+      (forall a, active_id s = Some a -> a <> nid -> cellof' a = cellof a) ->
+      exists s', update s nid rel c = Ok s' /\ occ_inv s' units cellof'.
+    Proof.
+      intros I Hrel Hc Hstay Hold. rewrite update_unfold.
+      destruct (opt_id_eqb id_eqb (active_id s) nid) eqn:E.
+      - (* same identifier: the active cell is determined again *)
+        destruct I as [W Rec Wh Act].
+        destruct (active_id s) as [a|] eqn:Ea; [|discriminate]. simpl in E.
+        apply id_eqb_spec in E. subst a.
+        destruct (active_cell s) as [ac|] eqn:Eac; [|contradiction]. destruct Act as [Ha _].
+        eexists; split; [reflexivity|].
+        constructor.
+        + apply st_wf_set_active; auto.
+        + rewrite recorded_set_active. unfold others, is_active in *. simpl. rewrite Ea in Rec. exact Rec.
+        + intros c0 u Hc0 Hu. rewrite <- (Wh c0 u Hc0 Hu).
+          assert (Hr : In u (others s units)).
+          { eapply Permutation_in; [exact Rec|]. apply in_recorded. eauto. }
+          unfold others in Hr. apply filter_In in Hr. destruct Hr as [Hu1 Hu2].
+          apply Hstay; auto. destruct (is_active s u); auto; discriminate.
+        + simpl. split; auto. apply Hc. apply Hrel; auto.
+      - destruct (reinsert_ok s nid I E Hstay Hold) as (s1 & E1 & W1 & Rec1 & Wh1).
+        rewrite E1. simpl bind.
+        apply finish_ok; auto.
+    Qed.
+  End Update.
+
+  (** *** the refill branch of update is dead code under the invariant *)
+  Definition take_out_norefill (s2 : state) (c : cell) (nid : id) : res state :=
+    bind (match aget (occupants s2) c with
+          | None => Err KeyError
+          | Some oc =>
+              match remove_first nid oc with
+              | Some oc' => Ok (set_occ s2 (aset (occupants s2) c oc'))
+              | None =>
+                  match aget (surplus s2) c with
+                  | None => Err KeyError
+                  | Some sl =>
+                      match remove_first nid sl with
+                      | None => Err ValueError
+                      | Some sl' => Ok (set_sur s2 (aset (surplus s2) c sl'))
+                      end
+                  end
+              end
+          end) (fun s4 =>
+      if negb (get_truthy (aget (surplus s4) c)) then Ok (set_sur s4 (adel (surplus s4) c)) else Ok s4).
+
+  (** update with the two lines of the refill branch deleted *)
+  Definition update_norefill (s : state) (nid : id) (rel : bool) (c : cell) : res state :=
+    if opt_id_eqb id_eqb (active_id s) nid then Ok (set_active s (Some c) (active_id s))
+    else bind (reinsert s) (fun s1 =>
+           if rel then take_out_norefill (set_active s1 (Some c) (Some nid)) c nid
+           else Ok (set_active s1 None None)).
+
+  Theorem refill_branch_dead s units cellof nid rel c :
+    occ_inv s units cellof ->
+    (forall u, In u units -> In (cellof u) cells) ->
+    update s nid rel c = update_norefill s nid rel c.
+  Proof.
+    intros [W Rec Wh Act] Hv. rewrite update_unfold. unfold update_norefill.
+    destruct (opt_id_eqb id_eqb (active_id s) nid); auto.
+    assert (H1 : forall s1, reinsert s = Ok s1 -> forall c0, aget (surplus s1) c0 <> Some []).
+    { unfold reinsert. intros s1 E1.
+      destruct (active_id s) as [a|].
+      - destruct (active_cell s) as [ac|]; [|discriminate]. destruct Act as [Ha ->].
+        destruct (insert_unit_ok s (cellof a) a W (Hv a Ha)) as (s1' & E1' & W1 & _).
+        rewrite E1 in E1'. inversion E1'; subst. apply (wf_sur_nonempty _ W1).
+      - inversion E1; subst. apply (wf_sur_nonempty _ W). }
+    destruct (reinsert s) as [s1|e] eqn:E1; auto. simpl bind.
+    destruct rel; auto.
+    unfold take_out, take_out_norefill.
+    destruct (aget (occupants (set_active s1 (Some c) (Some nid))) c) as [oc|]; auto.
+    destruct (remove_first nid oc) as [oc'|]; auto.
+    rewrite refill_condition_false; auto. simpl. apply H1; auto.
+  Qed.
+
+  (** *** initialize establishes the invariant *)
+  Definition units_of (us : list (id * cell * bool)) : list id :=
+    map (fun x => fst (fst x)) (filter (fun x => snd x) us).
+
+  Lemma aget_init (l : list cell) c : get_or_nil (aget (map (fun c => (c, [])) l) c) = [].
+  Proof. induction l as [|k r IH]; simpl; auto. destruct (cell_eqb k c); auto. Qed.
+
+  Lemma init_state_wf lim : st_wf (init_state cells lim).
+  Proof.
+    assert (Hocc : forall c, occ_of (init_state cells lim) c = []).
+    { intros c. unfold Occupancy.occ_of, init_state; simpl. apply aget_init. }
+    constructor; simpl.
+    - rewrite map_map. simpl. apply map_id.
+    - constructor.
+    - intros c H; contradiction.
+    - intros c H; discriminate.
+    - intros c k _. rewrite Hocc. simpl. lia.
+  Qed.
+
+  Lemma init_state_recorded lim : recorded (init_state cells lim) = [].
+  Proof.
+    unfold recorded. apply flat_map_all_nil. intros c.
+    unfold Occupancy.occ_of, Occupancy.sur_of, init_state; simpl.
+    rewrite aget_init. auto.
+  Qed.
+
+  Lemma insert_all_ok (cellof : id -> cell) us : forall s done,
+    st_wf s -> active_id s = None -> active_cell s = None ->
+    Permutation (recorded s) done -> where_ok s cellof ->
+    (forall u c r, In (u, c, r) us -> In c cells /\ cellof u = c) ->
+    exists s', insert_all cell_eqb s us = Ok s' /\ st_wf s' /\ active_id s' = None /\ active_cell s' = None
+               /\ Permutation (recorded s') (done ++ units_of us) /\ where_ok s' cellof.
+  Proof.
+    induction us as [|[[u c] r] us IH]; intros s done W Ai Ac Rec Wh Hus.
+    - exists s. simpl. rewrite app_nil_r. auto 10.
+    - simpl. destruct r.
+      + destruct (Hus u c true (or_introl eq_refl)) as [Hc Hco].
+        destruct (insert_unit_ok s c u W Hc) as (s1 & E1 & W1 & Eac & Eai & Hoth & Hat).
+        rewrite E1. simpl bind.
+        destruct (IH s1 (done ++ [u])) as (s' & E' & W' & Ai' & Ac' & Rec' & Wh'); auto; try congruence.
+        * rewrite (insert_unit_recorded s s1 c u W Hc E1). rewrite Rec. apply Permutation_cons_append.
+        * intros c0 u0 Hc0 Hu0.
+          destruct (cell_eq_dec _ _ cell_eqb_spec c0 c) as [->|Hne0].
+          -- assert (Hu' : In u0 (occ_of s c ++ sur_of s c) \/ u0 = u).
+             { destruct Hat as [[E2 E3]|[E2 E3]]; rewrite E2, E3 in Hu0;
+                 repeat (rewrite in_app_iff in Hu0; simpl in Hu0); rewrite in_app_iff; intuition auto. }
+             destruct Hu' as [Hu'| ->]; auto.
+          -- destruct (Hoth c0 Hne0) as [E2 E3]. rewrite E2, E3 in Hu0. auto.
+        * intros; eapply Hus; right; eauto.
+        * exists s'. repeat (split; auto).
+          unfold units_of in *. simpl. rewrite <- app_assoc in Rec'. exact Rec'.
+      + destruct (IH s done) as (s' & E' & W' & Ai' & Ac' & Rec' & Wh'); auto.
+        * intros; eapply Hus; right; eauto.
+        * exists s'. repeat (split; auto).
+  Qed.
+
+  Lemma insert_all_limit (us : list (id * cell * bool)) : forall (s0 s' : state),
+    insert_all cell_eqb s0 us = Ok s' -> limit s' = limit s0.
+  Proof.
+    assert (Hl : forall (s0 : state) c u s1, insert_unit s0 c u = Ok s1 -> limit s1 = limit s0).
+    { intros s0 c u s1. unfold Occupancy.insert_unit. destruct (aget (occupants s0) c); [|discriminate].
+      destruct (has_room (limit s0) l); intros H; inversion H; auto. }
+    induction us as [|[[u c] r] us IH]; simpl; intros s0 s' E.
+    - inversion E; auto.
+    - destruct r; auto.
+      destruct (insert_unit s0 c u) as [s1|] eqn:E1; [|discriminate]. simpl in E.
+      rewrite (IH _ _ E). eauto.
+  Qed.
+
+  (** [us]: the units on the cell level with the cell of their position and the charge filter's verdict *)
+  Theorem init_inv lim (us : list (id * cell * bool)) (cellof : id -> cell) :
+    (forall u c r, In (u, c, r) us -> In c cells /\ cellof u = c) ->
+    exists s, initialize cells lim us = Ok s /\ occ_inv s (units_of us) cellof
+              /\ active_id s = None /\ limit s = lim.
+  Proof.
+    intros Hus. unfold Occupancy.initialize.
+    destruct (insert_all_ok cellof us (init_state cells lim) []) as (s' & E' & W' & Ai' & Ac' & Rec' & Wh'); auto.
+    - apply init_state_wf.
+    - rewrite init_state_recorded; auto.
+    - intros c u Hc Hu. exfalso.
+      assert (H : In u (recorded (init_state cells lim))) by (apply in_recorded; eauto).
+      rewrite init_state_recorded in H. contradiction.
+    - exists s'. split; auto. split; [|split; auto].
+      + constructor; auto.
+        * rewrite others_none; auto.
+        * rewrite Ai', Ac'. auto.
+      + rewrite (insert_all_limit _ _ _ E'). reflexivity.
+  Qed.
+End Inv.
+
+(** ** C10: the cell taggers partition the other relevant units *)
+Section Partition.
+  Variables cell id : Type.
+  Variable cell_eqb : cell -> cell -> bool.
+  Variable id_eqb : id -> id -> bool.
+  Hypothesis cell_eqb_spec : forall a b, cell_eqb a b = true <-> a = b.
+  Hypothesis id_eqb_spec : forall a b, id_eqb a b = true <-> a = b.
+
+  Notation state := (state cell id).
+  Notation occ_of := (@occ_of cell id cell_eqb).
+  Notation sur_of := (@sur_of cell id cell_eqb).
+
+  (** what the cell taggers need of a (periodic) cell system; all quantifiers range over the cells of the
+      system, so the record is decidable for a concrete system ([cellsys_ok_b] below). *)
+  Record cellsys_ok (cs : cellsys cell) : Prop := {
+    ok_cells_nodup : NoDup (cs_cells cs);
+    ok_zero : In (cs_zero cs) (cs_cells cs);
+    ok_nearby_nodup : forall c, In c (cs_cells cs) -> NoDup (cs_nearby cs c);
+    ok_nearby_valid : forall c c', In c (cs_cells cs) -> In c' (cs_nearby cs c) -> In c' (cs_cells cs);
+    ok_translate_valid : forall a r, In a (cs_cells cs) -> In r (cs_cells cs) -> In (cs_translate cs a r) (cs_cells cs);
+    ok_relative_valid : forall c a, In c (cs_cells cs) -> In a (cs_cells cs) -> In (cs_relative cs c a) (cs_cells cs);
+    ok_translate_relative : forall a c, In a (cs_cells cs) -> In c (cs_cells cs) ->
+                                        cs_translate cs a (cs_relative cs c a) = c;
+    ok_relative_translate : forall a r, In a (cs_cells cs) -> In r (cs_cells cs) ->
+                                        cs_relative cs (cs_translate cs a r) a = r;
+    (* nearby_translation_invariant *)
+    ok_nearby_invariant : forall a r, In a (cs_cells cs) -> In r (cs_cells cs) ->
+        (In (cs_translate cs a r) (cs_nearby cs a) <-> In r (cs_nearby cs (cs_zero cs)));
+    (* the walker items are used as keys of the bound table: relative_cell(cell, zero_cell) is the cell itself *)
+    ok_relative_zero : forall c, In c (cs_cells cs) -> cs_relative cs c (cs_zero cs) = c
+  }.
+
+  Lemma mem_cell_spec c l : mem_cell cell_eqb c l = true <-> In c l.
+  Proof.
+    unfold mem_cell. rewrite existsb_exists. split.
+    - intros (x & Hx & E). apply cell_eqb_spec in E. subst; auto.
+    - intros H. exists c. split; auto. apply cell_eqb_spec; auto.
+  Qed.
+
+  Lemma mem_cell_false c l : mem_cell cell_eqb c l = false <-> ~ In c l.
+  Proof.
+    rewrite <- mem_cell_spec. destruct (mem_cell cell_eqb c l); split; intros H; auto; try discriminate.
+    exfalso; apply H; auto.
+  Qed.
+
+  Lemma NoDup_map_inj_in {A B} (f : A -> B) (l : list A) :
+    (forall x y, In x l -> In y l -> f x = f y -> x = y) -> NoDup l -> NoDup (map f l).
+  Proof.
+    induction l as [|a r IH]; simpl; intros Hinj ND; [constructor|].
+    inversion ND; subst. constructor.
+    - intros H. apply in_map_iff in H. destruct H as (y & E & Hy).
+      assert (y = a) by (apply Hinj; auto). subst. contradiction.
+    - apply IH; auto.
+  Qed.
+
+  Variable cs : cellsys cell.
+  Hypothesis cs_ok : cellsys_ok cs.
+  Notation cells := (cs_cells cs).
+
+  Definition not_nearby (ac c : cell) : bool := negb (mem_cell cell_eqb c (cs_nearby cs ac)).
+
+  (** the translated walker items are exactly the cells that are not nearby the active cell *)
+  Lemma veto_cells_perm ac : In ac cells ->
+    Permutation (map (cs_translate cs ac) (veto_domain cell_eqb cs)) (filter (not_nearby ac) cells).
+  Proof.
+    intros Hac. destruct cs_ok as [ND Z NN NV TV RV TR RT NI RZ].
+    apply NoDup_Permutation.
+    - apply NoDup_map_inj_in.
+      + unfold veto_domain. intros x y Hx Hy E. apply filter_In in Hx. apply filter_In in Hy.
+        rewrite <- (RT ac x), <- (RT ac y); try tauto. rewrite E; auto.
+      + apply NoDup_filter; auto.
+    - apply NoDup_filter; auto.
+    - intros x. rewrite in_map_iff, filter_In. unfold veto_domain, not_nearby. split.
+      + intros (r & E & Hr). apply filter_In in Hr. destruct Hr as [Hr Hn]. subst x. split; auto.
+        apply negb_true_iff in Hn. apply negb_true_iff. apply mem_cell_false. apply mem_cell_false in Hn.
+        intros H. apply Hn. apply (NI ac r); auto.
+      + intros [Hx Hn]. exists (cs_relative cs x ac). split; auto.
+        apply filter_In. split; auto.
+        apply negb_true_iff in Hn. apply negb_true_iff. apply mem_cell_false. apply mem_cell_false in Hn.
+        intros H. apply Hn. apply (NI ac (cs_relative cs x ac)) in H; auto. rewrite TR in H; auto.
+  Qed.
+
+  Lemma nearby_cells_perm ac : In ac cells ->
+    Permutation (filter (fun c => mem_cell cell_eqb c (cs_nearby cs ac)) cells) (cs_nearby cs ac).
+  Proof.
+    intros Hac. destruct cs_ok as [ND Z NN NV TV RV TR RT NI RZ].
+    apply NoDup_Permutation.
+    - apply NoDup_filter; auto.
+    - apply NN; auto.
+    - intros x. rewrite filter_In, mem_cell_spec. split; [tauto|]. intros H; split; auto. apply (NV ac x); auto.
+  Qed.
+
+  Lemma cells_split_perm ac : In ac cells ->
+    Permutation cells (map (cs_translate cs ac) (veto_domain cell_eqb cs) ++ cs_nearby cs ac).
+  Proof.
+    intros Hac. rewrite veto_cells_perm, <- nearby_cells_perm by auto.
+    rewrite Permutation_app_comm.
+    apply (filter_partition_perm (fun c => mem_cell cell_eqb c (cs_nearby cs ac))).
+  Qed.
+
+  (** every sampled walker item is a key of the handler's bound table *)
+  Lemma veto_keys_consistent : veto_keys cell_eqb cs = veto_domain cell_eqb cs.
+  Proof.
+    unfold veto_keys. rewrite <- (map_id (veto_domain cell_eqb cs)) at 2.
+    apply map_ext_in. intros c Hc. unfold veto_domain in Hc. apply filter_In in Hc.
+    apply (ok_relative_zero _ cs_ok); tauto.
+  Qed.
+
+  (** *** the targets of the three event families *)
+  Lemma nearby_targets_eq (s : state) ac a : active_cell s = Some ac -> active_id s = Some a ->
+    nearby_targets cell_eqb cs s = flat_map (occ_of s) (cs_nearby cs ac).
+  Proof.
+    intros Ec Ea. unfold nearby_targets, excluded_cells_tagger, yield_active_cells, targets_of.
+    rewrite Ec, Ea. simpl. rewrite app_nil_r.
+    induction (cs_nearby cs ac) as [|n r IH]; simpl; auto.
+    rewrite flat_map_app, IH. f_equal. apply flat_map_tl_pairs.
+  Qed.
+
+  Lemma surplus_targets_eq (s : state) ac a : active_cell s = Some ac -> active_id s = Some a ->
+    surplus_targets s = yield_surplus s.
+  Proof.
+    intros Ec Ea. unfold surplus_targets, surplus_cells_tagger, yield_active_cells, targets_of.
+    rewrite Ec, Ea. simpl. rewrite app_nil_r. apply flat_map_tl_pairs.
+  Qed.
+
+  Lemma veto_targets_eq (s : state) ac a : active_cell s = Some ac -> active_id s = Some a ->
+    cell_veto_targets cell_eqb cs s = flat_map (occ_of s) (map (cs_translate cs ac) (veto_domain cell_eqb cs)).
+  Proof.
+    intros Ec Ea. unfold cell_veto_targets, yield_active_cells. rewrite Ec, Ea. simpl. rewrite app_nil_r.
+    rewrite (flat_map_map (occ_of s) (cs_translate cs ac)). reflexivity.
+  Qed.
+
+  Lemma bounding_targets_eq (s : state) ac a : active_cell s = Some ac -> active_id s = Some a ->
+    bounding_targets cell_eqb cs s = flat_map (occ_of s) (filter (not_nearby ac) cells).
+  Proof.
+    intros Ec Ea. unfold bounding_targets, cell_bounding_tagger, yield_active_cells, targets_of.
+    rewrite Ec, Ea. simpl. rewrite app_nil_r.
+    rewrite flat_map_map. simpl.
+    transitivity (flat_map (occ_of s)
+      (filter (fun c => negb (is_nil (occ_of s c))) (filter (not_nearby ac) cells))).
+    - f_equal. clear. induction cells as [|c r IH]; simpl; auto.
+      unfold not_nearby at 1. destruct (mem_cell cell_eqb c (cs_nearby cs ac)); simpl.
+      + rewrite andb_false_r. auto.
+      + rewrite andb_true_r. destruct (is_nil (occ_of s c)); simpl; rewrite IH; auto.
+    - apply flat_map_filter_nonnil. intros x _ H. destruct (occ_of s x); auto; discriminate.
+  Qed.
+
+  Variables (units : list id) (cellof : id -> cell).
+  Hypothesis units_nodup : NoDup units.
+
+  (** *** cell-veto (or cell-bounding) targets + nearby targets + surplus targets = all other relevant units,
+      as multisets: nobody is missed, nobody is treated twice. *)
+  Hypothesis cellof_valid : forall u, In u units -> In (cellof u) cells.
+
+  Theorem cells_partition (s : state) a :
+    occ_inv cell_eqb id_eqb cells s units cellof -> active_id s = Some a ->
+    Permutation (cell_veto_targets cell_eqb cs s ++ nearby_targets cell_eqb cs s ++ surplus_targets s)
+                (others id_eqb s units).
+  Proof.
+    intros [W Rec Wh Act] Ea. rewrite Ea in Act.
+    destruct (active_cell s) as [ac|] eqn:Ec; [|contradiction]. destruct Act as [Ha Hac].
+    assert (Hacc : In ac cells) by (rewrite Hac; auto).
+    rewrite <- Rec.
+    rewrite (veto_targets_eq s ac a), (nearby_targets_eq s ac a), (surplus_targets_eq s ac a) by auto.
+    unfold recorded. rewrite flat_map_app_perm.
+    rewrite app_assoc. apply Permutation_app.
+    - rewrite <- flat_map_app. apply Permutation_flat_map. symmetry. apply cells_split_perm; auto.
+    - destruct W as [K ND V NE L]. unfold yield_surplus.
+      apply (values_perm _ _ cell_eqb cell_eqb_spec); auto. apply (ok_cells_nodup _ cs_ok).
+  Qed.
+
+  (** the cell-bounding family (one event per non-empty far cell) treats the same units as the cell-veto family *)
+  Theorem cell_bounding_same_targets (s : state) a :
+    occ_inv cell_eqb id_eqb cells s units cellof -> active_id s = Some a ->
+    Permutation (bounding_targets cell_eqb cs s) (cell_veto_targets cell_eqb cs s).
+  Proof.
+    intros [W Rec Wh Act] Ea. rewrite Ea in Act.
+    destruct (active_cell s) as [ac|] eqn:Ec; [|contradiction]. destruct Act as [Ha Hac].
+    assert (Hacc : In ac cells) by (rewrite Hac; auto).
+    rewrite (veto_targets_eq s ac a), (bounding_targets_eq s ac a) by auto.
+    apply Permutation_flat_map. symmetry. apply veto_cells_perm; auto.
+  Qed.
+
+  Corollary cells_partition_bounding (s : state) a :
+    occ_inv cell_eqb id_eqb cells s units cellof -> active_id s = Some a ->
+    Permutation (bounding_targets cell_eqb cs s ++ nearby_targets cell_eqb cs s ++ surplus_targets s)
+                (others id_eqb s units).
+  Proof.
+    intros I Ea. rewrite (cell_bounding_same_targets s a I Ea). apply cells_partition; auto.
+  Qed.
+
+  (** nobody twice, nobody missed, stated element-wise *)
+  Corollary cells_partition_nodup (s : state) a :
+    occ_inv cell_eqb id_eqb cells s units cellof -> active_id s = Some a ->
+    NoDup (cell_veto_targets cell_eqb cs s ++ nearby_targets cell_eqb cs s ++ surplus_targets s)
+    /\ (forall u, In u (cell_veto_targets cell_eqb cs s ++ nearby_targets cell_eqb cs s ++ surplus_targets s)
+                  <-> In u units /\ u <> a).
+  Proof.
+    intros I Ea. pose proof (cells_partition s a I Ea) as P. split.
+    - eapply Permutation_NoDup; [symmetry; exact P|]. unfold others. apply NoDup_filter; auto.
+    - intros u. split.
+      + intros H. eapply Permutation_in in H; [|exact P]. unfold others, is_active in H. rewrite Ea in H.
+        apply filter_In in H. destruct H as [H1 H2]. split; auto. intros ->. simpl in H2.
+        assert (id_eqb a a = true) by (apply id_eqb_spec; auto). rewrite H in H2. discriminate.
+      + intros [H1 H2]. eapply Permutation_in; [symmetry; exact P|]. unfold others, is_active. rewrite Ea.
+        apply filter_In. split; auto. simpl. destruct (id_eqb a u) eqn:E; auto.
+        apply id_eqb_spec in E. subst. contradiction.
+  Qed.
+
+  (** the taggers' in-states all start with the active unit; without a relevant active unit nothing is generated *)
+  Lemma taggers_without_active (s : state) : active_id s = None ->
+    cell_veto_tagger s = [] /\ cell_bounding_tagger cell_eqb cs s = [] /\ excluded_cells_tagger cell_eqb cs s = []
+    /\ surplus_cells_tagger s = [] /\ cell_boundary_tagger s = [].
+  Proof.
+    intros E. unfold cell_veto_tagger, cell_bounding_tagger, excluded_cells_tagger, surplus_cells_tagger,
+      cell_boundary_tagger, yield_active_cells. rewrite E. destruct (active_cell s); simpl; auto.
+  Qed.
+
+  (** C11, element-wise reading of the invariant *)
+  Corollary occ_inv_exactly_once (s : state) u :
+    occ_inv cell_eqb id_eqb cells s units cellof -> In u units -> is_active id_eqb s u = false ->
+    In u (occ_of s (cellof u) ++ sur_of s (cellof u))
+    /\ NoDup (recorded cell_eqb cells s)
+    /\ (forall c, In c cells -> In u (occ_of s c ++ sur_of s c) -> c = cellof u).
+  Proof.
+    intros [W Rec Wh Act] Hu Hna.
+    assert (Hr : In u (recorded cell_eqb cells s)).
+    { eapply Permutation_in; [symmetry; exact Rec|]. unfold others. apply filter_In. rewrite Hna. auto. }
+    split; [|split].
+    - apply in_flat_map in Hr. destruct Hr as (c & Hc & Hin). rewrite (Wh c u Hc Hin). auto.
+    - eapply Permutation_NoDup; [symmetry; exact Rec|]. unfold others. apply NoDup_filter; auto.
+    - intros c Hc Hin. symmetry. apply (Wh c u Hc Hin).
+  Qed.
+
+  Corollary occ_inv_active_not_recorded (s : state) a :
+    occ_inv cell_eqb id_eqb cells s units cellof -> active_id s = Some a ->
+    ~ In a (recorded cell_eqb cells s) /\ active_cell s = Some (cellof a).
+  Proof.
+    intros [W Rec Wh Act] Ea. rewrite Ea in Act. split.
+    - intros H. eapply Permutation_in in H; [|exact Rec]. unfold others, is_active in H. rewrite Ea in H.
+      apply filter_In in H. destruct H as [_ H]. simpl in H.
+      assert (id_eqb a a = true) by (apply id_eqb_spec; auto). rewrite H0 in H. discriminate.
+    - destruct (active_cell s); [|contradiction]. destruct Act as [_ ->]; auto.
+  Qed.
+End Partition.
